@@ -37,7 +37,7 @@ RunNodes(g, env, k) ==          \* -> [ok, err, env]; err = "Indefinite" when an
 \* shapes of the supplied tensors
 ShapesOf_(ins) == [n \in DOMAIN ins |-> ins[n].shape]
 \* a name the caller maps to no tensor (nil) is a name the caller did not supply
-Supplied(ins0) == [n \in {m \in DOMAIN ins0 : ~IsNil(ins0[m])} |-> ins0[n]]
+SuppliedTensors(ins0) == [n \in {m \in DOMAIN ins0 : ~IsNil(ins0[m])} |-> ins0[n]]
 RunSemV(g, ins) ==
    IF ~Accept(g.inputs, DOMAIN g.inits, ShapesOf_(ins))
    THEN [ok |-> FALSE, errc |-> RejectClasses(g.inputs, DOMAIN g.inits, ShapesOf_(ins)), out |-> <<>>]
@@ -46,5 +46,5 @@ RunSemV(g, ins) ==
         ELSE IF \E i \in 1..Len(g.outputs) : g.outputs[i] \notin DOMAIN r.env THEN [ok |-> FALSE, errc |-> {"Model"}, out |-> <<>>]
         ELSE [ok |-> TRUE, errc |-> {}, out |-> [i \in 1..Len(g.outputs) |-> r.env[g.outputs[i]]]])
 \* -> [ok, errc (set of acceptable classes), out (seq of tensors, in the order of g.outputs)]
-RunSem(g0, ins0) == Let(g0, LAMBDA g : Let(Supplied(ins0), LAMBDA ins : RunSemV(g, ins)))
+RunSem(g0, ins0) == Let(g0, LAMBDA g : Let(SuppliedTensors(ins0), LAMBDA ins : RunSemV(g, ins)))
 =============================================================================
